@@ -1308,6 +1308,128 @@ pub fn sc_boundary_sweep(idx: u64, seed: u64, _t: bool) -> RunOut {
     })
 }
 
+/// C04: the authentication grid. A stateless writer (session 0 initiator) produces a message at
+/// nonce w; the receiver (stateful, positioned with set_receiving_nonce, or stateless) is offered,
+/// under nonce r: the message under 7 wrong nonces (r != w, among them pairs congruent modulo 2^32
+/// and 2^63), 7 alterations at r = w, its own message (reflection) and the same-nonce message of a
+/// parallel session with the same static keys - then the genuine message at r = w, twice (the
+/// second copy must be rejected by a stateful receiver and accepted by a stateless one).
+/// 3 ciphers x 2 backends x 2 receiver modes x 16 attacks x 4 payload lengths = 768 runs.
+pub fn sc_auth_enum(idx: u64, seed: u64, _t: bool) -> RunOut {
+    let space = 3 * 2 * 2 * 16 * 4;
+    let i = idx % space;
+    let cipher = ["ChaChaPoly", "AESGCM", "XChaChaPoly"][(i % 3) as usize];
+    let backend = [Backend::Default, Backend::RingFirst][((i / 3) % 2) as usize];
+    let stateless_rcv = (i / 6) % 2 == 1;
+    let attack = (i / 12) % 16;
+    let plen = [0u32, 1, 16, 100][((i / 192) % 4) as usize];
+    let opts = CfgOpts { force_name: Some(format!("Noise_KK_25519_{cipher}_SHA256")), force_backend: Some(backend), sessions: 2, parallel_same_statics: true, ..CfgOpts::default() };
+    run_custom(idx, seed, "auth-enum", &opts, |d| {
+        let honest = Profile::default();
+        if !d.handshake(1, &honest) || !d.handshake(0, &honest) {
+            return;
+        }
+        d.step(Op::Convert { node: 0, stateless: true });
+        d.step(Op::Convert { node: 1, stateless: stateless_rcv });
+        d.step(Op::Convert { node: 2, stateless: true });
+        d.step(Op::Convert { node: 3, stateless: true });
+        let pairs: [(u64, u64); 7] = [
+            (0, 1),
+            (0, 1 << 32),
+            (7, 7 + (1 << 32)),
+            (1 << 63, (1 << 63) + 1),
+            (5, 5 + (1 << 63)),
+            (u64::MAX - 1, (1 << 32) - 2),
+            (0x0102_0304_0506_0708, 0x0807_0605_0403_0201),
+        ];
+        let (w, r) = if attack < 7 { pairs[attack as usize] } else { (3 + ((i as u64) << 33), 3 + ((i as u64) << 33)) };
+        let base0 = d.w.nodes[0].written.len() as u16;
+        d.step(Op::Write { node: 0, plen, pseed: 20, buf: Buf::Ample, nonce: NonceSel::At(w) });
+        let position = |d: &mut Driver, v: u64| {
+            if !stateless_rcv {
+                d.step(Op::SetRecvNonce { node: 1, v });
+            }
+        };
+        position(d, r);
+        let genuine = Src::Hist { from: 0, idx: base0 };
+        match attack {
+            0..=6 => d.step(Op::Read { node: 1, src: genuine, mutation: Mutation::None, out: Buf::Ample, nonce: NonceSel::At(r) }),
+            7 => d.step(Op::Read { node: 1, src: genuine, mutation: Mutation::Flip { field: 1, pos: 0, bit: 0 }, out: Buf::Ample, nonce: NonceSel::At(r) }),
+            8 => d.step(Op::Read { node: 1, src: genuine, mutation: Mutation::Flip { field: 0, pos: 0, bit: 7 }, out: Buf::Ample, nonce: NonceSel::At(r) }),
+            9 => d.step(Op::Read { node: 1, src: genuine, mutation: Mutation::TruncLast { n: 1 }, out: Buf::Ample, nonce: NonceSel::At(r) }),
+            10 => d.step(Op::Read { node: 1, src: genuine, mutation: Mutation::TruncAbs { to: 15 }, out: Buf::Ample, nonce: NonceSel::At(r) }),
+            11 => d.step(Op::Read { node: 1, src: genuine, mutation: Mutation::TruncAbs { to: 0 }, out: Buf::Ample, nonce: NonceSel::At(r) }),
+            12 => d.step(Op::Read { node: 1, src: genuine, mutation: Mutation::Extend { by: 1, fill: 0 }, out: Buf::Ample, nonce: NonceSel::At(r) }),
+            13 => d.step(Op::Read { node: 1, src: genuine, mutation: Mutation::Extend { by: 16, fill: 0xAA }, out: Buf::Ample, nonce: NonceSel::At(r) }),
+            14 => {
+                // reflection: the receiver is offered a message it wrote itself at that nonce
+                let b1 = d.w.nodes[1].written.len() as u16;
+                if stateless_rcv {
+                    d.step(Op::Write { node: 1, plen, pseed: 21, buf: Buf::Ample, nonce: NonceSel::At(r) });
+                } else {
+                    d.step(Op::SetSendNonce { node: 1, v: r });
+                    d.step(Op::Write { node: 1, plen, pseed: 21, buf: Buf::Ample, nonce: NonceSel::Auto });
+                }
+                d.step(Op::Read { node: 1, src: Src::Hist { from: 1, idx: b1 }, mutation: Mutation::None, out: Buf::Ample, nonce: NonceSel::At(r) });
+            },
+            _ => {
+                // the parallel session's initiator writes at the same nonce
+                let b2 = d.w.nodes[2].written.len() as u16;
+                d.step(Op::Write { node: 2, plen, pseed: 20, buf: Buf::Ample, nonce: NonceSel::At(w) });
+                d.step(Op::Read { node: 1, src: Src::Hist { from: 2, idx: b2 }, mutation: Mutation::None, out: Buf::Ample, nonce: NonceSel::At(r) });
+            },
+        }
+        // the genuine message under its own nonce: accepted; presented again: stateful rejects
+        position(d, w);
+        d.step(Op::Read { node: 1, src: genuine, mutation: Mutation::None, out: Buf::Ample, nonce: NonceSel::At(w) });
+        d.step(Op::Read { node: 1, src: genuine, mutation: Mutation::None, out: Buf::Exact, nonce: NonceSel::At(w) });
+    })
+}
+
+/// C16: three messages written by a stateless sender at three nonces are read by a stateless
+/// receiver in every order, each twice, from tight and roomy buffers; nonce triples from the
+/// boundary set; then a stateful receiver positioned at each nonce reads the same bytes.
+/// 3 ciphers x 2 backends x 6 orders x 5 triples x 2 payload sets = 360 runs.
+pub fn sc_stateless_enum(idx: u64, seed: u64, _t: bool) -> RunOut {
+    let space = 3 * 2 * 6 * 5 * 2;
+    let i = idx % space;
+    let cipher = ["ChaChaPoly", "AESGCM", "XChaChaPoly"][(i % 3) as usize];
+    let backend = [Backend::Default, Backend::RingFirst][((i / 3) % 2) as usize];
+    let perm = [[0usize, 1, 2], [0, 2, 1], [1, 0, 2], [1, 2, 0], [2, 0, 1], [2, 1, 0]][((i / 6) % 6) as usize];
+    let triples: [[u64; 3]; 5] = [
+        [0, 1, 2],
+        [0xFFFF_FFFF, 1 << 32, (1 << 32) + 1],
+        [1 << 63, (1 << 63) - 1, u64::MAX - 1],
+        [0, 1 << 32, 1 << 63],
+        [0x00FF_00FF_00FF_00FF, 0xFF00_FF00_FF00_FF00, 0x0123_4567_89AB_CDEF],
+    ];
+    let ns = triples[((i / 36) % 5) as usize];
+    let plens = [[0u32, 17, 300], [64, 1, 4096]][((i / 180) % 2) as usize];
+    let opts = CfgOpts { force_name: Some(format!("Noise_XX_25519_{cipher}_BLAKE2s")), force_backend: Some(backend), ..CfgOpts::default() };
+    run_custom(idx, seed, "stateless-enum", &opts, |d| {
+        let honest = Profile::default();
+        if !d.handshake(0, &honest) {
+            return;
+        }
+        d.step(Op::Convert { node: 0, stateless: true });
+        d.step(Op::Convert { node: 1, stateless: true });
+        let base = d.w.nodes[0].written.len() as u16;
+        for k in 0..3 {
+            d.step(Op::Write { node: 0, plen: plens[k], pseed: 30 + k as u32, buf: Buf::Ample, nonce: NonceSel::At(ns[k]) });
+        }
+        for round in 0..2 {
+            for &k in perm.iter() {
+                let out = if round == 0 { Buf::Exact } else { Buf::Ample };
+                d.step(Op::Read { node: 1, src: Src::Hist { from: 0, idx: base + k as u16 }, mutation: Mutation::None, out, nonce: NonceSel::At(ns[k]) });
+            }
+        }
+        // the writer's own results do not depend on order either: write them again, reversed
+        for k in (0..3).rev() {
+            d.step(Op::Write { node: 0, plen: plens[k], pseed: 30 + k as u32, buf: Buf::Exact, nonce: NonceSel::At(ns[k]) });
+        }
+    })
+}
+
 const CALL_ENUM_NAMES: [&str; 6] = [
     "Noise_N_25519_ChaChaPoly_SHA256",
     "Noise_NN_25519_AESGCM_SHA256",
@@ -1444,7 +1566,7 @@ pub fn check_table() -> Vec<Check> {
         Check { id: "C01", level: "exploration", rule: RULE, enumerations: vec![], scens: vec![scen!("interop", sc_interop, 24_000, 600_000, 0x101), scen!("honest", sc_honest, 8_000, 200_000, 0x102), scen!("fail-retry", sc_fail_retry_ledger, 6_000, 100_000, 0x103), scen!("framing-boundary", sc_framing_boundary, 3_040, 10_640, 0x104)] },
         Check { id: "C02", level: "exploration", rule: RULE, enumerations: vec![], scens: vec![scen!("honest", sc_honest, 24_000, 600_000, 0x201), scen!("interop", sc_interop, 8_000, 200_000, 0x202), scen!("fail-retry", sc_fail_retry_ledger, 6_000, 100_000, 0x203), scen!("framing-boundary", sc_framing_boundary, 3_040, 10_640, 0x204)] },
         Check { id: "C03", level: "exploration", rule: RULE, enumerations: vec![], scens: vec![scen!("tamper-hs", sc_tamper_hs, 30_000, 800_000, 0x301), scen!("chaos", sc_chaos, 4_000, 100_000, 0x302)] },
-        Check { id: "C04", level: "exploration", rule: RULE, enumerations: vec![], scens: vec![scen!("transport-auth", sc_transport_auth, 20_000, 500_000, 0x401), scen!("stateless", sc_stateless, 6_000, 100_000, 0x402), scen!("framing-boundary", sc_framing_boundary, 3_040, 10_640, 0x403)] },
+        Check { id: "C04", level: "exploration", rule: RULE, enumerations: vec![], scens: vec![scen!("transport-auth", sc_transport_auth, 20_000, 500_000, 0x401), scen!("stateless", sc_stateless, 6_000, 100_000, 0x402), scen!("framing-boundary", sc_framing_boundary, 3_040, 10_640, 0x403), scen!("auth-enum", sc_auth_enum, 768, 768, 0x404)] },
         Check { id: "C05", level: "exploration", rule: RULE, enumerations: vec![], scens: vec![scen!("transport-sched", sc_transport_sched, 24_000, 600_000, 0x501), scen!("nonce", sc_nonce, 4_000, 100_000, 0x502), scen!("sched-enum", sc_sched_enum, 7_500, 7_500, 0x503), scen!("nonce-enum", sc_nonce_enum, 5_184, 15_552, 0x504)] },
         Check { id: "C06", level: "exploration", rule: RULE, enumerations: vec!["real-rng"], scens: vec![scen!("fail-retry-ledger", sc_fail_retry_ledger, 24_000, 600_000, 0x601), scen!("chaos", sc_chaos, 6_000, 100_000, 0x602), scen!("nonce", sc_nonce, 6_000, 100_000, 0x603), scen!("fail-retry-enum", sc_fail_retry_enum, 7_680, 30_720, 0x604)] },
         Check { id: "C07", level: "exploration", rule: RULE, enumerations: vec![], scens: vec![scen!("fail-retry-control", sc_fail_retry_control, 20_000, 500_000, 0x701), scen!("transport-sched", sc_transport_sched, 4_000, 100_000, 0x702), scen!("fail-retry-enum", sc_fail_retry_enum, 7_680, 30_720, 0x703)] },
@@ -1455,7 +1577,7 @@ pub fn check_table() -> Vec<Check> {
         Check { id: "C12", level: "fault_enumeration", rule: "boot half: every (pattern, role, subset of {local static, remote static} supplied, psk modifier index 0..9 / none / fallback, resolver lacking each primitive) is booted once - complete enumeration; a boot is non-trivial if it is not the all-keys-supplied no-modifier default; run-time half: seeded sessions with PSKs withheld at boot", enumerations: vec!["boot-matrix"], scens: vec![scen!("boot-runtime", sc_boot_runtime, 12_000, 300_000, 0xC01)] },
         Check { id: "C14", level: "exploration", rule: RULE, enumerations: vec![], scens: vec![scen!("framing", sc_framing, 24_000, 600_000, 0xE01), scen!("interop", sc_interop, 6_000, 100_000, 0xE02), scen!("framing-boundary", sc_framing_boundary, 10_640, 42_560, 0xE03), scen!("boundary-sweep", sc_boundary_sweep, 1_536, 6_144, 0xE04)] },
         Check { id: "C15", level: "exploration", rule: RULE, enumerations: vec![], scens: vec![scen!("rekey", sc_rekey, 24_000, 600_000, 0xF01), scen!("nonce", sc_nonce, 6_000, 100_000, 0xF02), scen!("nonce-enum", sc_nonce_enum, 15_552, 15_552, 0xF03), scen!("rekey-enum", sc_rekey_enum, 15_552, 15_552, 0xF04)] },
-        Check { id: "C16", level: "exploration", rule: RULE, enumerations: vec!["stateless-threads"], scens: vec![scen!("stateless", sc_stateless, 24_000, 600_000, 0x1001)] },
+        Check { id: "C16", level: "exploration", rule: RULE, enumerations: vec!["stateless-threads"], scens: vec![scen!("stateless", sc_stateless, 24_000, 600_000, 0x1001), scen!("stateless-enum", sc_stateless_enum, 360, 360, 0x1002), scen!("auth-enum", sc_auth_enum, 768, 768, 0x1003)] },
         Check { id: "C17", level: "exploration", rule: RULE, enumerations: vec![], scens: vec![scen!("honest", sc_honest, 16_000, 400_000, 0x1101), scen!("fail-retry", sc_fail_retry_ledger, 8_000, 200_000, 0x1102)] },
         Check { id: "C19", level: "exploration", rule: RULE, enumerations: vec![], scens: vec![scen!("leak", sc_leak, 24_000, 600_000, 0x1301), scen!("tamper-hs", sc_tamper_hs, 6_000, 100_000, 0x1302), scen!("leak-enum", sc_leak_enum, 2_700, 2_700, 0x1303)] },
         Check { id: "C20", level: "exploration", rule: RULE, enumerations: vec!["fallback-table"], scens: vec![scen!("backends-twin", sc_backends_twin, 8_000, 200_000, 0x1401), scen!("rekey-enum-twin", sc_rekey_enum_twin, 5_184, 5_184, 0x1402)] },
